@@ -329,13 +329,96 @@ Definition prog_loop : list instr :=
   [ (*0*) MarkLate; (*1*) ReadFlag; (*2*) JmpIf 8; (*3*) EvWait true; (*4*) JmpIf 6; (*5*) Jmp 1;
     (*6*) Mark 0; (*7*) Jmp 8; (*8*) Mark 1; (*9*) Halt ].
 
-Inductive variant := VSleep | VGetSig | VGetSigTimed | VLoop | VGetSigReader | VGetSigTimedReader | VGetSigPoll.
+(* the same two programs for an implementation that tests the stop flag BEFORE registering the condition (a legal
+   fast path: the flag is never cleared, so raising at once is what the full procedure would do) *)
+Definition prog_getsig_fast (timed : bool) : list instr :=
+  [ MarkLate;
+    Acq 0;
+    ReadQ;
+    JmpIf 31;
+    ReadFlag;
+    JmpIf 29;
+    Acq 1;
+    SetWc true;
+    Rel 1;
+    ReadQ;
+    JmpIf 16;
+    ReadFlag;
+    JmpIf 16;
+    JmpIfTO 18;
+    WaitCv timed;
+    Jmp 9;
+    SetRet true;
+    Jmp 19;
+    SetRet false;
+    ReadFlag;
+    JmpIf 26;
+    Acq 1;
+    SetWc false;
+    Rel 1;
+    JmpIfRet 31;
+    Jmp 34;
+    Acq 1;
+    SetWc false;
+    Rel 1;
+    Mark 0;
+    Jmp 35;
+    SetQ false;
+    Mark 2;
+    Jmp 35;
+    Mark 3;
+    Rel 0;
+    Halt ].
+
+Definition prog_getsig_poll_fast : list instr :=
+  [ MarkLate;
+    Acq 0;
+    ReadQ;
+    JmpIf 33;
+    ReadFlag;
+    JmpIf 31;
+    Acq 1;
+    SetWc true;
+    Rel 1;
+    ReadQ;
+    JmpIf 18;
+    ReadFlag;
+    JmpIf 18;
+    JmpIfTO 20;
+    Rel 0;
+    Acq 0;
+    SetTO true;
+    Jmp 9;
+    SetRet true;
+    Jmp 21;
+    SetRet false;
+    ReadFlag;
+    JmpIf 28;
+    Acq 1;
+    SetWc false;
+    Rel 1;
+    JmpIfRet 33;
+    Jmp 36;
+    Acq 1;
+    SetWc false;
+    Rel 1;
+    Mark 0;
+    Jmp 37;
+    SetQ false;
+    Mark 2;
+    Jmp 37;
+    Mark 3;
+    Rel 0;
+    Halt ].
+
+Inductive variant := VSleep | VGetSig | VGetSigTimed | VLoop | VGetSigReader | VGetSigTimedReader | VGetSigPoll
+                   | VGetSigF | VGetSigTimedF | VGetSigReaderF | VGetSigTimedReaderF | VGetSigPollF.
 
 Definition progs (v : variant) (env : bool) (t : tid) : list instr :=
   match t with
   | TS => prog_stopper
   | TE => match v with
-          | VGetSigReader | VGetSigTimedReader => prog_reader
+          | VGetSigReader | VGetSigTimedReader | VGetSigReaderF | VGetSigTimedReaderF => prog_reader
           | _ => if env then prog_env else prog_noenv
           end
   | TW => match v with
@@ -344,5 +427,8 @@ Definition progs (v : variant) (env : bool) (t : tid) : list instr :=
           | VGetSigTimed | VGetSigTimedReader => prog_getsig true
           | VLoop => prog_loop
           | VGetSigPoll => prog_getsig_poll
+          | VGetSigF | VGetSigReaderF => prog_getsig_fast false
+          | VGetSigTimedF | VGetSigTimedReaderF => prog_getsig_fast true
+          | VGetSigPollF => prog_getsig_poll_fast
           end
   end.
